@@ -4,7 +4,11 @@ def groups(tier):
     K = dict(unit='chunkstore', harness='C01/store_gate.c', unwind=3, unwind_by={'reset': 66}, defines=['CHECK_C01'], kind='skeleton', checks=[], skeleton=True, timeout=600, backend=['sat', 'cadical'],
              bound='control-flow skeleton (E3) with value tags; loops unrolled twice')
     G = GROUPS_C01
-    return [Group(n, entry=e, replay=r, clause=c, **K) for n, e, r, c in G]
+    E2 = [Group('put_get.e2', 'chunkstore_e2', 'C01/put_get.c', entry='h_put_get', replace=['chunk_id_to_string', 'ChunkStore__wipe_persisted_chunk'],
+                unwind=20, kind='unbounded', backend=['cvc5', 'z3'], timeout=300,
+                clause='put replaces bytes AND deadline from any prior state of the entry (deadline = now + max(ttl, 1 s), default for ttl <= 0); '
+                       'get_record serves exactly those bytes at every instant before the deadline and nothing at or after it (symbolic clock)')] if 'C01' == 'C01' else []
+    return [Group(n, entry=e, replay=r, clause=c, **K) for n, e, r, c in G] + E2
 GROUPS_C01 = [('get_record.liveness', 'h_get_record', 'listing', 'get_record serves a record only after its deadline was checked and found in the future'),
               ('snapshot.liveness', 'h_snapshot', 'listing', 'snapshot() lists only records whose deadline was checked and found in the future')]
 GROUPS_C04 = [('get_record.wipe_before_forget', 'h_get_record', 'wipe', 'a lookup that notices the expiry forgets a persisted record only after wiping its file'),
